@@ -170,7 +170,7 @@ for _j2 in range(0, 9):
     _tg = ("quick", "thorough") if _j2 <= 6 else ("thorough",)
     if _j2 <= 8:
         group(["C12"], "dfun.small_d_matrix/group_law/2j=%d" % _j2, ["dfun:small_d_matrix"], tiers=_tg, cost=2 + 2 * _j2)(_mk_small_d_group(_j2))
-    group(["C12", "C01"] if _j2 <= 3 else ["C12"], "dfun.D_matrix_conj/2j=%d" % _j2, ["dfun:D_matrix_conj", "dfun:exp_i"],
+    group(["C12", "C01", "C02"] if _j2 <= 3 else ["C12"], "dfun.D_matrix_conj/2j=%d" % _j2, ["dfun:D_matrix_conj", "dfun:exp_i"],
           tiers=("quick", "thorough") if _j2 <= 6 else ("thorough",), cost=2 + 2 * _j2)(_mk_D(_j2))
 
 
